@@ -21,6 +21,7 @@ import (
 	"os"
 	"os/exec"
 	"path/filepath"
+	"slices"
 	"sort"
 	"strings"
 	"sync"
@@ -98,6 +99,7 @@ type PScn struct {
 	Lib     bool               `json:"lib,omitempty"`    // add a module-local package <mod>/lib (type Thing) for references
 	Zoo     int                `json:"zoo,omitempty"`    // a second module `zoo` (dot-less path, own go directive ZooGo) in directory zoo, required and replaced by the main module, with packages zoo/p (type P, tagged for rec) and zoo/dep: 1 = zoo/p is an entrypoint beside the others, 2 = zoo/p is the only entrypoint
 	ZooGo   string             `json:"zoo_go,omitempty"`
+	GenRev  bool               `json:"gen_rev,omitempty"` // the generators are handed to Execute in reverse order (a set has no order: GetRegisteredGenerators returns them in map order)
 	Peek    bool               `json:"peek,omitempty"`    // every GenerateType call first asks the Context for the doc of every type of every package the processed package imports (as a generator does for the types a type refers to) and renders nothing from it
 	ZooFns  bool               `json:"zoo_fns,omitempty"` // zoo/p declares functions A and B with error results (A returns B's among others) and the first package of the main module a function Q whose result comes from zoo/p's B and then from its A: what a generator renders from ResultsOf about zoo/p's A is a fact about zoo/p, whoever asked about Q before
 	Nested  bool               `json:"nested,omitempty"`  // a second module <mod>/sub nested in the tree (own go.mod, replaced by ./sub), whose package <mod>/sub/p the first package imports: not a package of this module, whatever its path looks like
@@ -809,6 +811,9 @@ func (s *PScn) executeOnce(dir string, sc *script) (res string, errText string) 
 	var gs []gengo.Generator
 	for _, g := range s.Gens {
 		gs = append(gs, mkGenerator(g))
+	}
+	if s.GenRev {
+		slices.Reverse(gs)
 	}
 	sc.peek = s.Peek
 	curScript = sc
